@@ -34,7 +34,6 @@ theorem step_mono {c : Config} {s s' : State} {l : Label} (hs : step c s l = som
   | allDone => simp only [step] at hs; split at hs <;> cases hs; exact ⟨id, id⟩
   | acquireStart i => simp only [step] at hs; split at hs <;> cases hs; exact ⟨id, id⟩
   | acquireSkip i => simp only [step] at hs; split at hs <;> cases hs; exact ⟨id, id⟩
-  | vanish i => simp only [step] at hs; split at hs <;> cases hs; exact ⟨id, id⟩
   | finish i r =>
     simp only [step] at hs
     split at hs
@@ -54,7 +53,6 @@ inductive Trans (c : Config) (s s' : State) (l : Label) : St → St → Prop
   | finish (creq : Bool) (i : Nat) (r : TestResult) : l = .finish i r → r.isFinished = true →
       Trans c s s' l (.running creq) (.done r)
   | cancel (x : St) : c.maxfail > 0 → s'.interrupted = true → Trans c s s' l x (cancelSt x)
-  | vanish : Trans c s s' l (.running true) .vanished
 
 private theorem trans_upd {c : Config} {s s' : State} {l : Label} (f : Nat → St) (i : Nat) (v : St)
     (h : Trans c s s' l (f i) v) (j : Nat) : Trans c s s' l (f j) (upd f i v j) := by
@@ -96,13 +94,6 @@ theorem step_pointwise {c : Config} {s s' : State} {l : Label} (hi : Inv c s) (h
       have hc : s.interrupted = true ∨ repeatFailed c s = true := hg.2.2
       exact ⟨fun j => trans_upd _ _ _ (by rw [hg.1]; exact .skip hc) j, Or.inl⟩
     · cases hs
-  | vanish i =>
-    simp only [step] at hs
-    split at hs
-    · rename_i hg
-      cases hs
-      exact ⟨fun j => trans_upd _ _ _ (by rw [hg]; exact .vanish) j, Or.inl⟩
-    · cases hs
   | finish i r =>
     simp only [step] at hs
     split at hs
@@ -138,7 +129,7 @@ theorem step_main {c : Config} {s s' : State} {l : Label} (hs : step c s l = som
     refine ⟨fun h => Or.inr (Or.inr ⟨by rw [← b]; exact h, a⟩), fun h => Or.inr ⟨by rw [← b]; exact h, a, d⟩⟩
   | true =>
     cases l with
-    | acquireStart i | acquireSkip i | finish i r | vanish i => simp [Label.isMain] at hl
+    | acquireStart i | acquireSkip i | finish i r => simp [Label.isMain] at hl
     | launch =>
       simp only [step] at hs
       split at hs
@@ -188,7 +179,7 @@ theorem step_main {c : Config} {s s' : State} {l : Label} (hs : step c s l = som
 structure CutInv (c : Config) (s : State) : Prop where
   /-- without `--maxfail` nothing is ever cancelled -/
   noMaxfail : c.maxfail = 0 →
-    s.interrupted = false ∧ ∀ j, s.st j ≠ .cancelled ∧ s.st j ≠ .vanished ∧ s.st j ≠ .running true
+    s.interrupted = false ∧ ∀ j, s.st j ≠ .cancelled ∧ s.st j ≠ .running true
   /-- a task only returns without running after an interruption or a failure under `--repeat` -/
   skipped : ∀ j, s.st j = .skipped → s.interrupted = true ∨ repeatFailed c s = true
   /-- the loop is only left at its end or by the `--repeat` failure `break` -/
@@ -198,7 +189,7 @@ structure CutInv (c : Config) (s : State) : Prop where
   /-- the run is only interrupted by `--maxfail`, after that many failures were counted -/
   interruptedWhy : s.interrupted = true → 0 < c.maxfail ∧ c.maxfail ≤ s.failCount
   /-- a task is only cancelled by an interruption -/
-  cancelledWhy : ∀ j, s.st j = .cancelled ∨ s.st j = .vanished ∨ s.st j = .running true → s.interrupted = true
+  cancelledWhy : ∀ j, s.st j = .cancelled ∨ s.st j = .running true → s.interrupted = true
 
 theorem CutInv.init (c : Config) : CutInv c (init c) := by
   refine ⟨?_, ?_, ?_, ?_, ?_, ?_⟩ <;> simp [Sched.init]
@@ -237,7 +228,6 @@ theorem CutInv.step {c : Config} {s s' : State} {l : Label} (hi : Inv c s) (h : 
       | skip => simp
       | finish => simp
       | cancel _ hc _ => omega
-      | vanish => simp at o
   · intro j hj
     have t := pw j
     have old : s.st j = .skipped → s'.interrupted = true ∨ repeatFailed c s' = true := by
@@ -259,7 +249,6 @@ theorem CutInv.step {c : Config} {s s' : State} {l : Label} (hi : Inv c s) (h : 
     | cancel _ hc _ =>
       apply old
       cases x <;> simp [cancelSt] at hj ⊢
-    | vanish => cases hj
   · intro hf
     rcases pm1 hf with h1 | h1 | ⟨h1, h2⟩
     · exact Or.inl h1
@@ -280,7 +269,7 @@ theorem CutInv.step {c : Config} {s s' : State} {l : Label} (hi : Inv c s) (h : 
     · exact h1
   · intro j hj
     have t := pw j
-    have old : (s.st j = .cancelled ∨ s.st j = .vanished ∨ s.st j = .running true) → s'.interrupted = true :=
+    have old : (s.st j = .cancelled ∨ s.st j = .running true) → s'.interrupted = true :=
       fun hx => mI (h.cancelledWhy j hx)
     generalize s.st j = x at t old
     generalize s'.st j = y at t hj
@@ -291,7 +280,6 @@ theorem CutInv.step {c : Config} {s s' : State} {l : Label} (hi : Inv c s) (h : 
     | skip => simp at hj
     | finish => simp at hj
     | cancel _ _ hint => exact hint
-    | vanish => exact old (Or.inr (Or.inr rfl))
 
 theorem Exec.cutInv {c : Config} {tr : List Label} {s : State} (h : Exec c tr s) : CutInv c s := by
   induction h with
@@ -317,7 +305,6 @@ theorem Exec.done_processed {c : Config} {tr : List Label} {s : State} (h : Exec
     | launch => cases hq
     | start => cases hq
     | skip => cases hq
-    | vanish => cases hq
     | cancel _ _ _ =>
       apply old
       cases x <;> simp [cancelSt] at hq ⊢
